@@ -173,6 +173,11 @@ fn chain_in_carrier(sig: &[u8], carrier: usize) -> Vec<u8> {
     }
 }
 
+/// A counter-signature chain (depth, shape, form) inside carrier number `carrier` (0..9).
+pub fn chain_bytes(depth: usize, shape: usize, form: usize, carrier: usize) -> Vec<u8> {
+    chain_in_carrier(&countersig_chain_form(depth, shape, form), carrier)
+}
+
 fn gen_bomb(g: &mut Gen, ctx: &mut Ctx) -> Vec<u8> {
     let max_len: usize = if std::env::var("VERIF_TIER_INTERNAL").ok().as_deref() == Some("thorough") { 4 << 20 } else { 1 << 20 };
     match g.below(8) {
